@@ -458,3 +458,198 @@ def c12_roundtrip(tier='quick', seed=0):
                                 'round-trip; decompile_script returns or raises on arbitrary bytes (watchdog)',
                         'bound': f'{n} programs (nesting <= 3), {n_built} builder scripts, {n_arb} byte strings '
                                  f'(every opcode x 6 tails + random, length < 60)'}}
+
+
+# ------------------------------------------------------------------------------------------ C04
+def c04_trees(tier='quick', seed=0):
+    """bounded stand-in for the tree-level clauses of C04 (the op-level commitment check and the
+    one-level lock / witness lemma are proved): for random trees built with the tree classes and both
+    builders, every leaf's unlocking script + the root lock runs exactly that leaf (a recording contract
+    is the first instruction of every leaf) and gives the leaf's own verdict; a wrong sibling or script
+    is rejected before anything of it runs; pack / unpack keeps the root and every unlocking script."""
+    import tapescript
+    from tapescript import tools
+    import tapescript.functions as F
+    rnd = random.Random(seed)
+    started = []
+
+    class Rec:
+        def __init__(self, i):
+            self.i = i
+
+        def mark(self, *a):
+            started.append(self.i)
+            return b''
+    bad = None
+    n = 0
+    n_trees = 25 if tier == 'quick' else 600
+    cids = [bytes([200 + i]) * 4 for i in range(16)]
+    recs = {cids[i]: Rec(i) for i in range(16)}
+    for t in range(n_trees):
+        k = rnd.randrange(1, 9 if tier == 'quick' else 17)
+        verdicts = [rnd.random() < 0.7 for _ in range(k)]
+        # leaf i: invoke the recording contract, then leave its verdict
+        srcs = [f'push x{cids[i].hex()} push d0 push x{cids[i].hex()} invoke pop0 {"true" if verdicts[i] else "false"}'
+                for i in range(k)]
+        # OP_INVOKE needs a contract object with an `abi`; use a minimal recording object
+        for builder in ('prioritized', 'balanced'):
+            try:
+                if builder == 'prioritized':
+                    lock, unlocks = tools.make_merklized_script_prioritized(list(srcs))
+                else:
+                    lock, unlocks = tools.make_merklized_script_balanced(list(srcs))
+            except BaseException as ex:  # noqa: BLE001
+                raise RuntimeError(f'c04_trees: builder failed: {ex!r}')
+            for i, u in enumerate(unlocks[:k]):
+                n += 1
+                started.clear()
+                contracts = {cid: _C04Contract(recs[cid]) for cid in cids[:k]}
+                try:
+                    ok = F.run_auth_scripts([u.bytes, lock.bytes], {}, contracts)
+                except BaseException as ex:  # noqa: BLE001
+                    ok = f'raised {type(ex).__name__}'
+                if (started != [i] or ok is not verdicts[i]) and bad is None:
+                    bad = {'builder': builder, 'leaves': k, 'leaf': i, 'started': list(started), 'verdict': repr(ok),
+                           'expected_verdict': verdicts[i]}
+                # tampered sibling commitment: rejected, nothing starts
+                tb = bytearray(u.bytes)
+                tb[5] ^= 1          # inside the first pushed commitment (push1 32 <32 bytes>)
+                started.clear()
+                ok2 = F.run_auth_scripts([bytes(tb), lock.bytes], {}, contracts)
+                if (ok2 is not False or started) and bad is None:
+                    bad = {'builder': builder, 'leaves': k, 'leaf': i, 'tampered': True, 'started': list(started),
+                           'verdict': repr(ok2)}
+        # pack / unpack
+        tree = tools.make_script_tree_prioritized(list(srcs)) if k > 0 else None
+        try:
+            t2 = tools.ScriptNode.unpack(tree.pack())
+            if t2.root() != tree.root() and bad is None:
+                bad = {'pack/unpack': 'root differs', 'leaves': k}
+            if bytes(t2.left.unlocking_script()) != bytes(tree.left.unlocking_script()) and bad is None:
+                bad = {'pack/unpack': 'unlocking script differs', 'leaves': k}
+        except BaseException as ex:  # noqa: BLE001
+            if bad is None:
+                bad = {'pack/unpack': f'{type(ex).__name__}: {ex}'[:200], 'leaves': k}
+    return {'obligations': [_ob('bounded/C04/trees', bad is None, bad)],
+            'bounded': {'what': 'merklized script trees: each unlocking script runs exactly its leaf with the leaf\'s '
+                                'verdict; tampered sibling rejected before anything runs; pack/unpack keeps root and '
+                                'unlocking script', 'bound': f'{n_trees} random trees x 2 builders, 1..{8 if tier == "quick" else 16} '
+                                                             f'leaves ({n} unlock runs)'}}
+
+
+class _C04Contract:
+    """minimal contract object for OP_INVOKE (CanBeInvoked interface: abi(args) -> list[bytes])"""
+
+    def __init__(self, rec):
+        self.rec = rec
+
+    def abi(self, args):
+        self.rec.mark()
+        return []
+
+
+# ------------------------------------------------------------------------------------------ C05
+_P = 2**255 - 19
+_D = (-121665 * pow(121666, _P - 2, _P)) % _P
+_L = 2**252 + 27742317777372353535851937790883648493
+
+
+def _ed_add(p1, p2):
+    (x1, y1), (x2, y2) = p1, p2
+    t = _D * x1 * x2 * y1 * y2 % _P
+    x3 = (x1 * y2 + x2 * y1) * pow(1 + t, _P - 2, _P) % _P
+    y3 = (y1 * y2 + x1 * x2) * pow(1 - t, _P - 2, _P) % _P
+    return x3, y3
+
+
+def _ed_mul(k, p):
+    q = (0, 1)
+    while k:
+        if k & 1:
+            q = _ed_add(q, p)
+        p = _ed_add(p, p)
+        k >>= 1
+    return q
+
+
+def _ed_dec(b):
+    y = int.from_bytes(b, 'little') & ((1 << 255) - 1)
+    sign = b[31] >> 7
+    x2 = (y * y - 1) * pow(_D * y * y + 1, _P - 2, _P) % _P
+    x = pow(x2, (_P + 3) // 8, _P)
+    if (x * x - x2) % _P:
+        x = x * pow(2, (_P - 1) // 4, _P) % _P
+    if (x * x - x2) % _P:
+        raise ValueError('not a point')
+    if (x & 1) != sign:
+        x = _P - x
+    return x, y
+
+
+def _ed_enc(p):
+    x, y = p
+    return (y | ((x & 1) << 255)).to_bytes(32, 'little')
+
+
+_G = _ed_dec((4 * pow(5, _P - 2, _P) % _P).to_bytes(32, 'little'))
+
+
+def c05_taproot(tier='quick', seed=0):
+    """bounded stand-ins for C05 (the instruction's contract and the lock / witness lemmas are proved):
+    (1) the root in make_taproot_lock's output equals P + clamp(sha256(P || sha256(S)))*G, recomputed
+    with an independent pure-Python Ed25519; (2) the builders' key-spend and script-spend witnesses
+    unlock the lock they were made for; (3) native vs non-native lock give the same verdict."""
+    import hashlib
+    from nacl.signing import SigningKey
+    from tapescript import tools
+    import tapescript.functions as F
+    rnd = random.Random(seed)
+    bad = None
+    bad_h0 = None
+    n = 0
+    scripts = ['true', 'false', 'push d1 push d1 equal', 'push d2 push d3 add_ints d2 push d5 equal',
+               'true return false', 'if { true } else { false }', 'push x' + 'ab' * 40 + ' pop0 true']
+    handle0 = ['def 0 { true } call d0', 'call d0', 'call d0 pop0 true']
+    for _ in range(12 if tier == 'quick' else 400):
+        seed_ = rnd.randbytes(32)
+        sk = SigningKey(seed_)
+        pk = bytes(sk.verify_key)
+        for src in scripts + handle0:
+            sc = tools.Script.from_src(src)
+            n += 1
+            lock = tools.make_taproot_lock(pk, sc)
+            # (1) root identity, independent arithmetic
+            t = bytearray(hashlib.sha256(pk + hashlib.sha256(sc.bytes).digest()).digest())
+            t[31] &= 0x7f                                   # clamp_scalar(..., from_private_key=False)
+            k = int.from_bytes(bytes(t), 'little')
+            root = _ed_enc(_ed_add(_ed_dec(pk), _ed_mul(k % _L, _G)))
+            if lock.bytes[2:34] != root and bad is None:
+                bad = {'what': 'root identity', 'pubkey': pk.hex(), 'script': src, 'lock_root': lock.bytes[2:34].hex(),
+                       'recomputed': root.hex()}
+            sf = {'sigfield1': rnd.randbytes(8), 'sigfield2': rnd.randbytes(3)}
+            nn = tools.make_nonnative_taproot_lock(pk, sc)
+            wk = tools.make_taproot_witness_keyspend(seed_, sf, sc)
+            ws = tools.make_taproot_witness_scriptspend(pk, sc)
+            junk = tools.Script.from_src('push x' + rnd.randbytes(64).hex())
+            wrong = tools.make_taproot_witness_scriptspend(pk, tools.Script.from_src(src + ' true'))
+            # (2) builders' witnesses unlock
+            if F.run_auth_scripts([wk.bytes, lock.bytes], dict(sf)) is not True and bad is None:
+                bad = {'what': 'key-spend witness rejected', 'pubkey': pk.hex(), 'script': src}
+            # (3) native vs non-native, every witness
+            for wname, w in (('keyspend', wk), ('scriptspend', ws), ('junk-signature', junk), ('wrong-script', wrong)):
+                a = F.run_auth_scripts([w.bytes, lock.bytes], dict(sf))
+                b = F.run_auth_scripts([w.bytes, nn.bytes], dict(sf))
+                if a is not b:
+                    rec = {'what': 'native and non-native lock disagree', 'script': src, 'witness': wname,
+                           'native': a, 'nonnative': b}
+                    if src in handle0:
+                        bad_h0 = bad_h0 or rec
+                    elif bad is None:
+                        bad = rec
+    obs = [_ob('bounded/C05/taproot-builders', bad is None, bad),
+           # committed scripts that use definition handle 0, which the non-native lock itself defines (D20)
+           _ob('bounded/C05/native-vs-nonnative/handle0', bad_h0 is None, bad_h0)]
+    return {'obligations': obs,
+            'bounded': {'what': 'taproot root identity against an independent Ed25519; builder witnesses unlock; native vs '
+                                'non-native verdicts for key-spend, script-spend, junk and wrong-script witnesses',
+                        'bound': f'{n} (key, script) pairs'}}
